@@ -11,6 +11,14 @@ pub trait ExRead {
 
     spec fn stream(&self) -> Seq<u8>;
     spec fn failed(&self) -> bool;
+    /// C09: for a reader that owns the connection's byte source: the position (remaining byte stream of the
+    /// source) at which the source is handed on if this reader is dropped NOW, as it is.  Defined per type from
+    /// what its Drop (if any) does -- a type without Drop releases its fields as they are.
+    spec fn release(&self) -> Seq<u8>;
+    /// ... and if it is first read to end-of-stream and then dropped.
+    spec fn drained(&self) -> Seq<u8>;
+    /// C11: does this reader keep the connection's byte source (so that the next request cannot be read yet)?
+    spec fn owns_source(&self) -> bool;
 
     fn read(&mut self, buf: &mut [u8]) -> (r: std::io::Result<usize>)
         ensures
@@ -42,6 +50,9 @@ pub uninterp spec fn same_handle<R>(a: R, b: R) -> bool;
 impl<'a, R: std::io::Read> ReadSpecImpl for &'a mut R {
     open spec fn stream(&self) -> Seq<u8> { (**self).stream() }
     open spec fn failed(&self) -> bool { (**self).failed() }
+    open spec fn release(&self) -> Seq<u8> { (**self).release() }
+    open spec fn drained(&self) -> Seq<u8> { (**self).drained() }
+    open spec fn owns_source(&self) -> bool { (**self).owns_source() }
 }
 
 // io::Bytes::next reads exactly one byte from its source (ASSUMED, std)
